@@ -52,14 +52,14 @@ class FakePool:
 # abstract BAM description
 
 def mk_rec(name, contig, site, rstart, rlen, sample='s1', r1=True, dup=False, qcfail=False, mapq=60, mp='', key='k1',
-           proper=True, file=1):
-    return {'file': file, 'name': name, 'contig': contig, 'site': int(site), 'rstart': int(rstart), 'rend': int(rstart + rlen),
+           proper=True, file=1, clip=0):
+    return {'file': file, 'clip': clip, 'name': name, 'contig': contig, 'site': int(site), 'rstart': int(rstart), 'rend': int(rstart + rlen),
             'sample': sample, 'r1': r1, 'dup': dup, 'qcfail': qcfail, 'mapq': mapq, 'mp': mp, 'key': key, 'proper': proper}
 
 
 def gen_bam(rng, in_pre=True):
-    contigs = ['chr1', 'chr2', 'chrS'][:rng.choice([1, 2, 3])]
-    lens = [rng.choice([97, 100, 120, 250]), rng.choice([37, 50, 64]), rng.choice([5, 9, 12])][:len(contigs)]
+    contigs = ['chr1', 'chr11', 'chr1_alt'][:rng.choice([1, 2, 3])]      # every name is a prefix of another one
+    lens = [rng.choice([97, 100, 120, 250]), rng.choice([37, 50, 64, 97, 100]), rng.choice([5, 9, 12])][:len(contigs)]
     binsz = rng.choice([5, 7, 10, 25])
     mfs = rng.choice([0, 3, 10, 30])
     minmq = rng.choice([0, 20, 50])
@@ -68,7 +68,7 @@ def gen_bam(rng, in_pre=True):
     # "shared": the same cell occurs in two libraries (outside the statement, recorded as an observation)
     nfiles = rng.choice([1, 1, 1, 2, 2, 3])
     shared = nfiles > 1 and rng.random() < 0.15
-    for t in range(rng.randint(4, 22)):
+    for t in range(rng.choice([0, 1] + [rng.randint(4, 22)] * 18)):      # now and then an empty / one-record BAM
         ci = rng.randrange(len(contigs))
         fi = rng.randint(1, nfiles)
         ln = lens[ci]
@@ -93,18 +93,25 @@ def gen_bam(rng, in_pre=True):
             mapq = rng.choice([0, max(0, minmq - 1)])
         elif rng.random() < 0.3:
             mapq = minmq                                              # exactly the threshold
-        cell = rng.choice(['cellA', 'cellB', 'cellC'])
+        cell = rng.choice(['cellA', 'cellAB', 'cellB'])
         if nfiles > 1 and not (shared and cell == 'cellA'):
             cell = 'lib%d_%s' % (fi, cell)
         r = mk_rec('m%d' % t, contigs[ci], site, rstart, rlen, sample=cell, file=fi,
                    dup=kind == 'dup', qcfail=kind == 'qcfail', mapq=mapq,
-                   mp={'mp_multi': 'multi', 'mp_unique': 'unique'}.get(kind, ''), key=rng.choice(['ref', 'alt']),
+                   mp={'mp_multi': 'multi', 'mp_unique': 'unique'}.get(kind, ''), key=rng.choice(['ref', 'alt', 'alt', 'None']),
+                   clip=rng.choice([0, 0, 0, 2, 5]),
                    proper=rng.random() < 0.8)
         recs.append(r)
         if rng.random() < 0.6:                                        # the mate: never counted
             m = dict(r, r1=False, site=rng.randrange(ln))
-            m['rstart'] = max(0, min(ln - rlen, r['rstart'] + rng.randint(0, 20)))
-            m['rend'] = m['rstart'] + rlen
+            mln = ln
+            if len(contigs) > 1 and rng.random() < 0.15:              # mate aligned to another contig
+                mi = rng.choice([k for k in range(len(contigs)) if k != ci])
+                m['contig'], mln = contigs[mi], lens[mi]
+                m['site'] = rng.randrange(mln)
+            ml = min(rlen, mln)
+            m['rstart'] = max(0, min(mln - ml, r['rstart'] + rng.randint(0, 20)))
+            m['rend'] = m['rstart'] + ml
             recs.append(m)
     return {'contigs': contigs, 'lens': lens, 'nfiles': nfiles, 'recs': recs}, binsz, mfs, minmq
 
@@ -128,12 +135,15 @@ def write_bam(path, bam, fi=1):
         names.setdefault(r['name'], []).append(r)
     for r in mine:
         mates = [x for x in names[r['name']] if x is not r]
-        tags = {'SM': r['sample'], 'DS': r['site'], 'DA': r['key']}
+        tags = {'SM': r['sample'], 'DS': r['site']}
+        if r['key'] != 'None':        # key 'None': the record has no allele tag (the bin id then carries None)
+            tags['DA'] = r['key']
         if r['mp']:
             tags['mp'] = r['mp']
         m = mates[0] if mates else None
         segs.append(bamgen.make_read(
-            header, r['name'], r['contig'], r['rstart'], 'A' * (r['rend'] - r['rstart']), paired=True, read1=r['r1'],
+            header, r['name'], r['contig'], r['rstart'], 'A' * (r['rend'] - r['rstart'] + r.get('clip', 0)),
+            cigar=('%dS%dM' % (r['clip'], r['rend'] - r['rstart'])) if r.get('clip') else None, paired=True, read1=r['r1'],
             read2=not r['r1'], proper=r['proper'], mate_contig=(m or r)['contig'], mate_pos=(m or r)['rstart'],
             mate_unmapped=False, mapq=r['mapq'], dup=r['dup'], qcfail=r['qcfail'], tags=tags))
     bamgen.write_bam(path, header, segs)
@@ -150,10 +160,12 @@ def run_counts(bbc, path, cfg, pool, threads, order_seed):
     multiprocessing.Pool = FakePool if pool == 'fake' else REAL_POOL
     try:
         with contextlib.redirect_stdout(io.StringIO()):
-            cmds = bbc.generate_commands(path, bin_size=cfg['bin'], bins_per_job=cfg['bpj'], min_mq=cfg['minmq'],
+            cmds = bbc.generate_commands(path, bin_size=cfg['bin'], bins_per_job=cfg['bpj'],
+                                         min_mq=None if cfg.get('mq_none') else cfg['minmq'],
                                          max_fragment_size=cfg['mfs'], key_tags=['DA'] if cfg['usekey'] else None,
                                          dedup=cfg['dedup'], **extra)
-            counts = bbc.obtain_counts(cmds, reference=None, live_update=False, threads=threads)
+            counts = bbc.obtain_counts(cmds, reference=None, live_update=False, threads=threads,
+                                       show_progress=bool(cfg.get('progress')))
         for bin_id, sd in counts.items():
             bin_id = list(bin_id)
             key = str(bin_id[0]) if cfg['usekey'] else ''
@@ -260,10 +272,13 @@ def main():
                 state['group'] += 1
                 maxbpj = max(bam['lens']) // binsz + 2
                 bpjs = [1, maxbpj] + [rng.randint(1, maxbpj) for _ in range(npart - 2)]
-                base = {'bin': binsz, 'mfs': mfs, 'minmq': minmq, 'dedup': True, 'kwargs': 'empty', 'usekey': usekey}
+                base = {'bin': binsz, 'mfs': mfs, 'minmq': minmq, 'dedup': rng.random() < 0.85, 'kwargs': 'empty',
+                        'usekey': usekey}
+                if minmq == 0 and rng.random() < 0.5:
+                    base['mq_none'] = True          # min_mq=None: no threshold (same meaning as 0)
                 for i, bpj in enumerate(bpjs):
                     real = i >= len(bpjs) - nreal
-                    run(dict(base, bpj=bpj), 'real' if real else 'fake', rng.choice([1, 2, 4, 4]) if real else 1,
+                    run(dict(base, bpj=bpj, progress=rng.random() < 0.2), 'real' if real else 'fake', rng.choice([1, 2, 4, 4]) if real else 1,
                         rng.randrange(1 << 30))
                 if b % 5 == 0:      # the documented default kwargs=None of generate_commands
                     state['group'] += 1
